@@ -42,6 +42,9 @@ func propC17(c *Ctx, r *Report) {
 	r.Clauses = append(r.Clauses, "binding attributes reach every backend (E44): each field of ir.BuiltinBinding / LocationBinding / Interpolation / ResourceBinding is read somewhere in each of the SPIR-V, HLSL, MSL and GLSL backends")
 	c.runBindingFieldRead(r, "binding.fieldread", []string{"spirv", "hlsl", "msl", "glsl"}, nil)
 	r.floor("binding.fieldread", 30)
+	r.Clauses = append(r.Clauses, builtinDirClause)
+	c.runBuiltinDirection(r, "builtin.direction", inPkgs("spirv", "hlsl", "msl", "glsl", "dxil"))
+	r.floor("builtin.direction", 2)
 	r.Clauses = append(r.Clauses, sameSliceClause)
 	c.runBoundsSameSlice(r, "bounds.sameslice", inPkgs("hlsl", "msl", "glsl", "spirv"))
 	r.floor("bounds.sameslice", 100)
@@ -62,3 +65,5 @@ func propC17(c *Ctx, r *Report) {
 }
 
 const accumClause = "order-independent accumulation (E29): a variable created lazily (`if v == nil { v = ... }`) inside a loop over attributes / items collects fields from several iterations; no other assignment inside that loop replaces it unconditionally, so @interpolate / @blend_src / @binding survive whatever order the attributes are written in"
+
+const builtinDirClause = "two-way built-ins (E59): a function that names built-in values for a target and is told the direction (a bool next to the ir.BuiltinValue) consults it in the arms for position and sample_mask - the two WGSL built-ins that are an input at one stage position and an output at another - whenever it consults it for any built-in at all"
